@@ -159,7 +159,7 @@ theorem C20_cancel_step (s : Sess) (m : InMsg) (b : SState)
 theorem C20_testrequest_echo (s : Sess) (m : InMsg) (x : String) (hk : kindOf m = "1")
     (hb : checkBeginString s m = none) (hc : checkCompID s m = none)
     (ht : (curResend s).isSome = true ∨ checkSendingTime s m = none)
-    (hn : getInt m 34 = .val s.store.target) (hv : validate m = none) (hcb : callbackVerdict m = none)
+    (hn : getInt m 34 = .val s.store.target) (hv : validate s.cfg m = none) (hcb : callbackVerdict m = none)
     (hx : m.f.get? 112 = some x) :
     inSessionFixMsgIn s m =
       (incrTarget (sendInReplyTo (s.emit (.fromAdmin "1" (seqText m))) ((mkOut "0" [(112, x)]).inReplyTo m)), .inSession) :=
@@ -169,7 +169,7 @@ theorem C20_testrequest_echo (s : Sess) (m : InMsg) (x : String) (hk : kindOf m 
 theorem C20_testrequest_echo_inSession (s : Sess) (m : InMsg) (x : String) (hst : s.st = .inSession ∨ s.st = .pendingIn)
     (hk : kindOf m = "1") (hb : checkBeginString s m = none) (hc : checkCompID s m = none)
     (ht : checkSendingTime s m = none)
-    (hn : getInt m 34 = .val s.store.target) (hv : validate m = none) (hcb : callbackVerdict m = none)
+    (hn : getInt m 34 = .val s.store.target) (hv : validate s.cfg m = none) (hcb : callbackVerdict m = none)
     (hx : m.f.get? 112 = some x) :
     fixMsgInCore s m =
       (incrTarget (sendInReplyTo (s.emit (.fromAdmin "1" (seqText m))) ((mkOut "0" [(112, x)]).inReplyTo m)), .inSession) := by
@@ -181,7 +181,7 @@ theorem C20_testrequest_echo_inSession (s : Sess) (m : InMsg) (x : String) (hst 
 theorem C20_testrequest_echo_recovery (s : Sess) (m : InMsg) (x : String) (stash : List (Int × InMsg)) (cur fin : Int)
     (h : curResend s = some (stash, cur, fin))
     (hk : kindOf m = "1") (hb : checkBeginString s m = none) (hc : checkCompID s m = none)
-    (hn : getInt m 34 = .val s.store.target) (hv : validate m = none) (hcb : callbackVerdict m = none)
+    (hn : getInt m 34 = .val s.store.target) (hv : validate s.cfg m = none) (hcb : callbackVerdict m = none)
     (hx : m.f.get? 112 = some x) :
     fixMsgInCore s m =
       resendBook (incrTarget (sendInReplyTo (s.emit (.fromAdmin "1" (seqText m))) ((mkOut "0" [(112, x)]).inReplyTo m))) .inSession
@@ -254,7 +254,7 @@ theorem C20_logon_arms (s : Sess) (m : InMsg) :
 -- the hypotheses of the echo theorem hold for that message
 #guard (checkBeginString (demoUp {}) (demoIn {} "1" 2 [(112, "abc")])).isNone && (checkCompID (demoUp {}) (demoIn {} "1" 2 [(112, "abc")])).isNone
         && (checkSendingTime (demoUp {}) (demoIn {} "1" 2 [(112, "abc")])).isNone && gotIs (getInt (demoIn {} "1" 2 [(112, "abc")]) 34) 2
-        && (validate (demoIn {} "1" 2 [(112, "abc")])).isNone && (callbackVerdict (demoIn {} "1" 2 [(112, "abc")])).isNone
+        && (validate {} (demoIn {} "1" 2 [(112, "abc")])).isNone && (callbackVerdict (demoIn {} "1" 2 [(112, "abc")])).isNone
 -- the acceptor adopts the peer's 108 unless overridden
 #guard (demoUp {} "45").hb == 45 && (demoUp { hbOverride := true, hb := 20 } "45").hb == 20
 #guard (step (demoUp {} "45") (.incomingMsg (some (demoIn {} "0" 2)))).2.1 == [.fromAdmin "0" "2", .incT, .armPeer 54000]
